@@ -16,6 +16,7 @@ type Marker struct {
 	Expr    string
 	HasExpr bool
 	Legacy  bool // "// +govalid:" spelling
+	Canon   string // when set: the plain decimal spelling of the same parameter (Expr is then an unusual but legal Go spelling of it)
 }
 
 func (m Marker) Comment() string {
@@ -93,6 +94,10 @@ type NamedDecl struct{ Name, Src string }
 
 type Scenario struct {
 	ID     string
+	Layout  string            // "" | "split" (declarations alternate between x.go and y.go) | "crlf" (Windows line endings) | "cgo" (cgo preamble and import "C") | "header" (file doc comment, build constraint, a declaration that uses a struct before it is declared)
+	Imports []string          // import lines of the package source (and of its driver), e.g. `t1 "scen/pX/a/types"`
+	Uses    []string          // declarations that keep every import used (`var _ t1.ID`), written into the source and the driver
+	Deps    map[string]string // extra packages below the scenario package: relative path of the file → source
 	Pre    *Scenario // history: an earlier version of the package, generated in the same directory first
 	Named  []NamedDecl
 	Decls  []*Decl
@@ -171,9 +176,56 @@ func writeFields(sb *strings.Builder, fs []*Field, indent string) {
 	}
 }
 
+// Files: the source files of the scenario package (name → content) according to its Layout
+func (s *Scenario) Files(pkg string) map[string]string {
+	switch s.Layout {
+	case "split":
+		if len(s.Decls) >= 2 && s.Decls[0].Group == "" && len(s.Imports) == 0 {
+			a, b := *s, *s
+			a.Decls, b.Decls = nil, nil
+			for i, d := range s.Decls {
+				if i%2 == 0 {
+					a.Decls = append(a.Decls, d)
+				} else {
+					b.Decls = append(b.Decls, d)
+				}
+			}
+			b.Named, b.Raw, b.Uses = nil, "", nil
+			a.Layout, b.Layout = "", ""
+			return map[string]string{"x.go": a.Source(pkg), "y.go": b.Source(pkg)}
+		}
+	case "crlf":
+		return map[string]string{"x.go": strings.ReplaceAll(s.Source(pkg), "\n", "\r\n")}
+	case "cgo":
+		// a cgo source file: go/packages hands the generator the cgo-translated copy from the build cache, which maps back
+		// to this file through //line directives
+		if len(s.Imports) == 0 {
+			src := s.Source(pkg)
+			pre := "\n/*\n#include <stdint.h>\n*/\nimport \"C\"\n\nvar _ C.int32_t\n"
+			return map[string]string{"x.go": strings.Replace(src, "package "+pkg+"\n", "package "+pkg+"\n"+pre, 1)}
+		}
+	case "header":
+		src := s.Source(pkg)
+		head := "// Copyright notice.\n// +govalid:required is mentioned in the licence text, which is not a doc comment of anything.\n\n//go:build !never\n\n// Package " + pkg + " holds the declarations under test.\n//\n//govalid:required\n"
+		use := ""
+		if len(s.Decls) > 0 {
+			use = "\n// used before it is declared\nvar first" + s.Decls[0].Name + " *" + s.Decls[0].Name + "\n"
+		}
+		return map[string]string{"x.go": head + strings.Replace(src, "package "+pkg+"\n", "package "+pkg+"\n"+use, 1)}
+	}
+	return map[string]string{"x.go": s.Source(pkg)}
+}
+
 func (s *Scenario) Source(pkg string) string {
 	var sb strings.Builder
 	sb.WriteString("package " + pkg + "\n\n")
+	if len(s.Imports) > 0 {
+		sb.WriteString("import (\n")
+		for _, im := range s.Imports {
+			sb.WriteString("\t" + strings.ReplaceAll(im, "§PKG§", pkg) + "\n")
+		}
+		sb.WriteString(")\n\n")
+	}
 	for _, n := range s.Named {
 		sb.WriteString("type " + n.Name + " " + n.Src + "\n\n")
 	}
@@ -213,6 +265,9 @@ func (s *Scenario) Source(pkg string) string {
 		}
 		sb.WriteString(")\n\n")
 		i = j - 1
+	}
+	for _, u := range s.Uses {
+		sb.WriteString(u + "\n")
 	}
 	sb.WriteString(s.Raw)
 	return sb.String()
